@@ -95,6 +95,13 @@ pub fn eval_pixels(px: &[bool], width: usize, st: &mut Stats) -> Result<(), Stri
                     i / width, i % width, classify(sy, i / width, i % width)
                 ));
             }
+            // the content of a symbol are its codewords: rendering them again must give the same
+            // array too (the fixed corner pattern is not content)
+            let again = MatrixMap::new_with_codewords(&m.codewords(), s).bitmap();
+            if again.bits() != px {
+                let i = again.bits().iter().zip(px.iter()).position(|(a, b)| a != b).unwrap_or(0);
+                return Err(format!("accepted, but rendering the parsed codewords differs at (row {}, col {})", i / width, i % width));
+            }
             st.count("accepted");
             Ok(())
         }
@@ -314,6 +321,63 @@ pub fn run(ctx: &Ctx) -> i32 {
             px[*i] = cur[k];
         }
     });
+    // all 16 patterns of the fixed corner of the four sizes that have one
+    ctx.seq(|w| {
+        w.label(|| "fixed corner patterns".into());
+        for si in 0..48 {
+            let sy = &SYMBOLS[si];
+            if !sy.has_fixed_corner() {
+                continue;
+            }
+            let contents = cw_contents(si);
+            for cw in [&contents[0], &contents[3]] {
+                let base = ref_bitmap(&refs[si], cw);
+                // the 2x2 corner of the mapping matrix sits just inside the bottom right finder corner
+                let cells = [(sy.rows - 3, sy.cols - 3), (sy.rows - 3, sy.cols - 2), (sy.rows - 2, sy.cols - 3), (sy.rows - 2, sy.cols - 2)];
+                for pat in 0..16u32 {
+                    let mut px = base.clone();
+                    for (k, (r, c)) in cells.iter().enumerate() {
+                        px[r * sy.cols + c] = pat >> k & 1 == 1;
+                    }
+                    let valid = px == base;
+                    w.check((si * 10 + 5) as u64, || pdesc(&px, sy.cols), |st| {
+                        let before = st.counters.get("accepted").copied().unwrap_or(0);
+                        eval_pixels(&px, sy.cols, st)?;
+                        let accepted = st.counters.get("accepted").copied().unwrap_or(0) > before;
+                        if accepted != valid {
+                            return Err(format!("fixed corner pattern {:04b} is {}", pat, if accepted { "accepted" } else { "rejected although it is the valid pattern" }));
+                        }
+                        st.count("nontrivial");
+                        Ok(())
+                    });
+                }
+            }
+        }
+    });
+    // valid renderings with surplus or missing pixels, or presented with a neighbouring width
+    ctx.par(48, |c, w| {
+        let si = c as usize;
+        let sy = &SYMBOLS[si];
+        w.label(|| format!("surplus pixels {}", sy.name()));
+        let contents = cw_contents(si);
+        let base = ref_bitmap(&refs[si], &contents[3]);
+        for r in [1usize, 2, sy.cols / 2, sy.cols - 1, sy.cols, sy.cols + 1] {
+            for fill in [false, true] {
+                let mut px = base.clone();
+                px.extend(std::iter::repeat(fill).take(r));
+                w.check((si * 10 + 6) as u64, || pdesc(&px, sy.cols), |st| { eval_pixels(&px, sy.cols, st)?; st.count("nontrivial"); Ok(()) });
+            }
+            if r < base.len() {
+                let px = &base[..base.len() - r];
+                w.check((si * 10 + 6) as u64, || pdesc(px, sy.cols), |st| { eval_pixels(px, sy.cols, st)?; st.count("nontrivial"); Ok(()) });
+            }
+        }
+        for wd in [sy.cols - 1, sy.cols + 1, sy.rows, 2 * sy.cols, sy.cols / 2] {
+            if wd > 0 && wd != sy.cols {
+                w.check((si * 10 + 6) as u64, || pdesc(&base, wd), |st| { eval_pixels(&base, wd, st)?; st.count("nontrivial"); Ok(()) });
+            }
+        }
+    });
     // lattice of (width, length), uniform contents
     ctx.par(151, |c, w| {
         let width = c as usize;
@@ -336,7 +400,7 @@ pub fn run(ctx: &Ctx) -> i32 {
         "distinct_nontrivial": ctx.counter("nontrivial"),
         "rule": format!("forward: 48 sizes x (zero, ones, checker, 3 LCG contents, every single data module): bitmap() == reference rendering (R3+R4), try_from_bits returns the same content and size. \
 Converse, deviation-bounded from valid symbols: every single-module flip of 3 valid symbols of every size (data flip must be accepted, finder/alignment/fixed-corner flip rejected), every double flip for sizes up to {} modules, \
-all 2^12 patterns of every group of 12 consecutive finder/alignment modules for sizes up to {} modules; structural deviations of every side of every region of all 48 sizes (inverted, inverted without end modules, all dark, all light, phase shifted, every inverted prefix and suffix): accepted => re-rendering is identical bit for bit. Lattice: width 0..=150 x height 0..=150 x lengths (w*h, w*h+1, w*h+w-1) x 2 uniform fills: \
+all 2^12 patterns of every group of 12 consecutive finder/alignment modules for sizes up to {} modules; structural deviations of every side of every region of all 48 sizes (inverted, inverted without end modules, all dark, all light, phase shifted, every inverted prefix and suffix): accepted => re-rendering (of the parsed map and of its codewords) is identical bit for bit. All 16 patterns of the fixed corner of 12x12, 16x16, 20x20, 24x24; valid renderings with surplus / missing pixels or a neighbouring width. Lattice: width 0..=150 x height 0..=150 x lengths (w*h, w*h+1, w*h+w-1) x 2 uniform fills: \
 ZeroWidth / DataSize / SymbolSize with that precedence. All cases distinct; non-trivial = forward cases and deviation cases.", limit, lim),
         "exhaustive": true,
         "accepted": ctx.counter("accepted"),
